@@ -792,7 +792,10 @@ class ConfigurableReference:
   def __eq__(self, other):
     if isinstance(other, self.__class__):
       # pylint: disable=protected-access
+      # (The scopes are part of what a reference refers to: `%a` and `%b` are
+      # the same configurable under two scopes.)
       return (self._configurable == other._configurable and
+              self._scopes == other._scopes and
               self._evaluate == other._evaluate)
       # pylint: enable=protected-access
     return False
@@ -803,7 +806,8 @@ class ConfigurableReference:
   def __hash__(self):
     # Consistent with `__eq__` (and independent of how the reference is spelled,
     # which `repr` is not).
-    return hash((self._configurable.selector, self._evaluate))
+    return hash((self._configurable.selector, tuple(self._scopes),
+                 self._evaluate))
 
   def __repr__(self):
     # Check if this reference is a macro or constant, i.e. @.../macro() or
